@@ -137,6 +137,9 @@ structure ColW where
   totalValues : Nat := 0
   totalUncompressed : Nat := 0
   numPages : Nat := 0
+  /-- ghost (not in the C struct): the finished pages, (rows, header ++ compressed body) each;
+  `buffer` is their concatenation (proved in Proofs/WriterPages) -/
+  pages : List (Nat × Bytes) := []
   deriving Repr
 
 structure W where
@@ -213,7 +216,8 @@ def flushPage (D : Deps) (codec : Nat) (c : Col) (cw : ColW) : Option ColW :=
     | none => none
     | some (bytes, unc) =>
       some { cw with page := {}, buffer := cw.buffer ++ bytes,
-                     totalUncompressed := cw.totalUncompressed + unc, numPages := cw.numPages + 1 }
+                     totalUncompressed := cw.totalUncompressed + unc, numPages := cw.numPages + 1,
+                     pages := cw.pages ++ [(cw.page.numValues, bytes)] }
 
 /-- `carquet_column_writer_write_batch` -/
 def colWriteBatch (D : Deps) (codec target : Nat) (c : Col) (cw : ColW) (b : Batch) : Option ColW :=
